@@ -682,6 +682,12 @@ def sf_isinstance(fv, node, st):
     return bi_isinstance(fv, node, st, True)
 
 
+def sf_exceptional(fv, node, st):
+    """exceptional(): this path went through an except handler of a try statement of the function (slice mode)"""
+    v = st.env.get('__exc')
+    return SV(v.term if v is not None else z3.BoolVal(False), BOOL)
+
+
 def sf_truthy(fv, node, st):
     return SV(fv.truthy(fv.ev(node.args[0], st, True)), BOOL)
 
@@ -732,7 +738,7 @@ SPEC_FORMS = {
     'nodup': sf_nodup, 'take': sf_take, 'drop': sf_drop, 'seq_remove': sf_seq_remove, 'index_of': sf_index_of, 'restrict': sf_restrict,
     'mupdate': sf_mupdate, 'put': sf_put, 'rem': sf_rem, 'snoc': sf_snoc, 'smem': sf_smem, 'mem': sf_mem, 'class_is': sf_class_is, 'same_class': sf_same_class, 'set_add': sf_set_add, 'set_of': sf_set_of, 'elems': sf_elems,
     'empty_map': sf_empty_map, 'empty_seq': sf_empty_seq, 'empty_set': sf_empty_set, 'typed': sf_typed,
-    'cast': sf_cast, 'truthy': sf_truthy, 'fresh': sf_fresh, 'newobj': sf_newobj, 'allocated': sf_allocated, 'allocated_now': sf_allocated_now,
+    'cast': sf_cast, 'truthy': sf_truthy, 'exceptional': sf_exceptional, 'fresh': sf_fresh, 'newobj': sf_newobj, 'allocated': sf_allocated, 'allocated_now': sf_allocated_now,
     'unchanged': sf_unchanged, 'ite': sf_ite,
 }
 
@@ -753,6 +759,8 @@ def bi_len(fv, node, st, spec):
     if t.kind == 'str':
         f = z3.Function('strlen', P.V, z3.IntSort())
         return SV(f(v.term), INT)
+    if t.is_any:
+        return SV(P.alen(v.term), INT)
     fv.err(node, 'len of %r' % t)
 
 
@@ -985,6 +993,25 @@ def call_method(fv, node, st, spec):
     if rt.is_any and fv.E.find_contract('<any>.' + meth) is not None:
         # duck-typed call: a contract that every class providing this method is assumed to satisfy
         return apply_contract(fv, fv.E.find_contract('<any>.' + meth), node, st, spec, recv)
+    if rt.is_any and meth in ('append', 'add') and len(node.args) == 1 and not node.keywords and not spec \
+            and fv.in_slice() and not fv.binders and isinstance(node.func.value, ast.Name):
+        # x.append(e) / x.add(e) on a local of unknown static type: afterwards x is some non-empty collection
+        # (list / set / deque semantics; lists are values in this engine, aliases of x are not updated)
+        a = node.args[0]
+        no = len(fv.obligations)
+        try:
+            fv.ev(a, st, spec)
+        except (Unsupported, EngineError) as e:
+            del fv.obligations[no:]
+            from .slicing import havoc_state, site_nodes
+            if site_nodes(fv, ast.Expr(value=a)):
+                raise
+            fv.abstracted.append(dict(line=a.lineno, stmt='argument ' + ast.unparse(a)[:90], reason=str(e)[:160]))
+            havoc_state(fv, st, set())
+        nv = fv.E.fresh(node.func.value.id, ANY)
+        fv.add_fact(st, P.truth(nv.term))
+        fv.assign_into(node.func.value, nv, st)
+        return SV(P.none, NONE)
     fv.err(node, 'method .%s on %r' % (meth, rt))
 
 
@@ -1001,7 +1028,7 @@ def seq_method(fv, node, st, spec, recv, meth):
     s = recv.term
     ety = recv.ty.args[0]
     if meth == 'append':
-        x = fv.ev(node.args[0], st, spec)
+        x = fv.ev_element(node.args[0], st, spec)
         nty = x.ty if ety.is_any else T.join(ety, x.ty)
         store_back(fv, tgt, SV(P.snoc(s, box(coerce(x, nty))), T.Seq(nty)), st, spec, node)
         return SV(P.none, NONE)
